@@ -41,12 +41,13 @@ d = subprocess.run(['/verif/tools/mut.py', '--patch', patch, '--', pid], capture
 print(d.stdout[-1500:])
 det = f'[mutant] {pid} rc=1' in d.stdout
 sigs = sorted(set(re.findall(r'signature="([^"]+)"', d.stdout)))
-out = f'/verif/seeded/{pid}-{var}'
+sfx = os.environ.get('SEED_SUFFIX', '')
+out = f'/verif/seeded/{pid}-{var}{sfx}'
 os.makedirs(out, exist_ok=True)
 shutil.copy(patch, out + '/patch.diff'); shutil.copy(demo, out + '/demo.rs')
 meta.update({'confirmed_by_me': {'demo_passes_without_change': ok_without, 'demo_fails_with_change': fails_with,
              'existing_suite_passes_with_change': suite_ok, 'demo_location': m.group(1), 'demo_command': cmd},
-             'check_run': f'tools/mut.py --patch seeded/{pid}-{var}/patch.diff -- {pid}  (quick tier, VERIF_SEED=0)',
+             'check_run': f'tools/mut.py --patch seeded/{pid}-{var}{os.environ.get("SEED_SUFFIX","")}/patch.diff -- {pid}  (quick tier, VERIF_SEED=0)',
              'detected_by_check': det, 'signatures': sigs})
 json.dump(meta, open(out + '/meta.json', 'w'), indent=1)
 print(f'[{pid}-{var}] detected={det} signatures={sigs}')
